@@ -201,3 +201,10 @@ class HeapObj:
         self.init = {}
         self.data = None
         self.hint = None
+
+
+class LazyInit:
+    """pre-state value of a field that was overwritten before anything read it: materialised (possibly forking on an
+    optional type) only if a specification asks for old(field)"""
+    def __init__(self, ty, hint):
+        self.ty, self.hint = ty, hint
